@@ -269,7 +269,7 @@ SPEC = {
          'bounds': {'quick': _Q, 'thorough': _T},
          'slices': {'quick': ['d1 == %d and %s' % (d, r) for d in range(_ND) for r in ('rev', 'not rev')],
                     'thorough': ['d1 == %d and %s and paths == %d and pat == %d' % (d, r, p, q) for d in range(_ND) for r in ('rev', 'not rev') for p in range(len(PATHSETS))
-                                 for q in range(len(PATTERNS))]},
+                                 for q in range(len(PATTERNS)) if p == 0 or q == 0]},          # the thorough bound varies one of the two at a time
          'reach': 'files_reach', 'reach_bounds': {'quick': _B + ' and d1 == 0 and paths == 0 and pat == 0 and not usec and init1 and init2',
                                                   'thorough': _B + ' and d1 == 0 and paths == 0 and pat == 0 and not usec and init1 and init2'},
          'timeout': {'quick': 300, 'thorough': 1700},
@@ -277,7 +277,7 @@ SPEC = {
         {'name': 'suites', 'fn': 'suites', 'params': _PS, 'call': _CS,
          'bounds': {'quick': _QS, 'thorough': _BS + ' and d1 <= 4 and f1a <= 5 and f1b <= 3'},
          'slices': {'quick': ['mp == %d and %s' % (m, p) for m in range(len(MODPAT)) for p in ('pkg', 'not pkg')],
-                    'thorough': ['mp == %d and %s and d1 == %d' % (m, p, d) for m in range(len(MODPAT)) for p in ('pkg', 'not pkg') for d in range(_ND)]},
+                    'thorough': ['mp == %d and %s and d1 == %d' % (m, p, d) for m in range(len(MODPAT)) for p in ('pkg', 'not pkg') for d in range(5)]},
          'reach': 'suites_reach', 'reach_bounds': {'quick': _BS + ' and d1 == 0 and mp == 0 and failkind == 0 and init1',
                                                    'thorough': _BS + ' and d1 == 0 and mp == 0 and failkind == 0 and init1'},
          'timeout': {'quick': 300, 'thorough': 1700},
